@@ -447,12 +447,13 @@ func TestVerifParChild(t *testing.T) {
 	var mu sync.Mutex
 	var wg sync.WaitGroup
 	start := make(chan struct{})
+	deadline := time.Now().Add(time.Duration(vEnvInt("VERIF_PAR_MS", 1200)) * time.Millisecond)
 	for g := 0; g < K; g++ {
 		wg.Add(1)
 		go func(g int) {
 			defer wg.Done()
 			<-start
-			for rep := 0; rep < 6; rep++ {
+			for rep := 0; rep < 6 || time.Now().Before(deadline); rep++ {
 				e, err := MnemonicToEntropy(append(Mnemonic{}, sents[g]...))
 				s, err2 := MnemonicToSeed(append(Mnemonic{}, sents[g]...), passes[g])
 				if err != nil || err2 != nil || string(e) != string(ents[g]) || string(s) != string(seeds[g]) {
